@@ -114,7 +114,10 @@ def crosscheck(world, run, rep, opts):
             continue
         seen.add(key)
         s = z3.Solver(); s.set('timeout', 3000)
-        s.add(*[h for h in ob.hyps if not has_quantifier(h)])
+        qf = [h for h in ob.hyps if not has_quantifier(h)]
+        s.add(*qf)
+        from .solve import small_bounds
+        s.add(*small_bounds(qf, 12))          # small keys / counters / parameters: the native run must stay cheap
         if s.check() != z3.sat:
             skipped += 1; continue
         fake = type(ob)(ob.name, ob.hyps, ob.goal, ob.kind, ob.where, path=ob.path)
